@@ -397,6 +397,7 @@ func runC06(p *Prog, r *Report, tier string) {
 	// (C07's rules on the per-record transition, imported)
 	checkReadyAtOnce(p, r, "R-GATE.ready-at-once")
 	checkSingleSuccessExit(p, r, "R-OWNER.every-record-applied")
+	checkRetries(p, r, "R-GATE.retries")
 }
 
 func reachableBlock(from, to *ssa.BasicBlock) bool { return reachableBlockEdge(nil, from, to) }
